@@ -270,9 +270,40 @@ def _pool():
 # ------------------------------------------------------------------------------------------------
 # shrink-lite
 # ------------------------------------------------------------------------------------------------
+SHRINK_CASE_TIMEOUT = int(os.environ.get("VERIF_SHRINK_CASE_TIMEOUT", "120"))
+
+
+def _shrink_job(args):
+    prop_id, case, bucket, budget = args
+    return shrink_lite(_load(prop_id), case, bucket, budget)
+
+
+def _shrink_and_message(args):
+    prop_id, case, bucket, budget, msg = args
+    import signal
+
+    mod = _load(prop_id)
+    case, _ = shrink_lite(mod, case, bucket, budget)
+    try:
+        signal.alarm(SHRINK_CASE_TIMEOUT)
+        try:
+            r = mod.evaluate(case)
+        finally:
+            signal.alarm(0)
+        msgs = [m for b, m in r.violations if b == bucket]
+        if msgs:
+            msg = msgs[0]
+    except BaseException:
+        pass
+    return case, msg
+
+
 def shrink_lite(mod, case, bucket, budget):
     """Greedy reduction over the module's candidate simplifications; every candidate is re-checked
-    against the oracle and kept only if it still fails in the same bucket."""
+    against the oracle and kept only if it still fails in the same bucket.  Runs in a pool worker: a candidate
+    that does not finish within SHRINK_CASE_TIMEOUT seconds is simply not taken."""
+    import signal
+
     if not hasattr(mod, "simplifications"):
         return case, 0
     used = 0
@@ -284,7 +315,15 @@ def shrink_lite(mod, case, bucket, budget):
                 break
             used += 1
             try:
-                r = mod.evaluate(cand)
+                if _IN_WORKER:
+                    signal.alarm(SHRINK_CASE_TIMEOUT)
+                try:
+                    r = mod.evaluate(cand)
+                finally:
+                    if _IN_WORKER:
+                        signal.alarm(0)
+            except CaseTimeout:
+                continue
             except Exception:
                 continue
             if any(b == bucket for b, _ in r.violations):
@@ -334,6 +373,14 @@ def run_check(prop_id, tier, seed_value, replay=None):
     violations = 0
     known_hit = 0
     os.makedirs(REPLAY_DIR, exist_ok=True)
+    # shrink every unlisted failing bucket (in pool workers, which carry the per-case wall-clock guard)
+    shrunk = {}
+    todo = [(b, c, m) for b, (c, m, _) in sorted(acc.failures.items()) if match_known(prop_id, b, known) is None]
+    if replay is None and todo:
+        with _pool() as pool:
+            out = pool.map(_shrink_and_message, [(prop_id, c, b, 25 if tier == "quick" else 80, m) for b, c, m in todo])
+        for (b, _, _), (c2, m2) in zip(todo, out):
+            shrunk[b] = (c2, m2)
     for bucket, (case, msg, _) in sorted(acc.failures.items()):
         k = match_known(prop_id, bucket, known)
         if k is not None:
@@ -341,14 +388,7 @@ def run_check(prop_id, tier, seed_value, replay=None):
             lines.append("KNOWN-FINDING: property=%s %s [%s]" % (prop_id, k["what"], bucket))
             continue
         if replay is None:
-            case, used = shrink_lite(mod, case, bucket, 25 if tier == "quick" else 80)
-            try:
-                r = mod.evaluate(case)
-                msgs = [m for b, m in r.violations if b == bucket]
-                if msgs:
-                    msg = msgs[0]
-            except Exception:
-                pass
+            case, msg = shrunk.get(bucket, (case, msg))
         violations += 1
         path = os.path.join(REPLAY_DIR, "%s-%s.json" % (prop_id, case_hash(case)))
         if replay is None:
